@@ -27,11 +27,9 @@ def _is_all_blocking(t) -> bool:
     if c[0] != "comp" or c[4]:
         return False
     elt = c[2]
-    if not (elt[0] == "attr" and elt[2] == "blocking" and elt[1][0] == "attr" and elt[1][2] == "connection"
-            and elt[1][1][0] == "elem"):
+    if not (elt[0] == "attr" and elt[2] == "blocking" and elt[1][0] == "attr" and elt[1][2] == "connection"):
         return False
-    it = elt[1][1][1]
-    return it[0] == "call" and it[1] == "self.inputs.values"
+    return T.dict_value(elt[1][1], "self.inputs") is not None
 
 
 def _ts_max_candidates(q_start, r=None, region_guard=None):
@@ -43,7 +41,7 @@ def _ts_max_candidates(q_start, r=None, region_guard=None):
         if not _blocking_filter(L):
             continue
         it = L[3][0][1]
-        if not (it[0] == "call" and it[1] == "self.inputs.values"):
+        if not (it[0] == "call" and it[1] == "self.inputs.items"):
             continue
         mx = T.mk_call("max", [L])
         out.append(T.mk_ite(T.le(T.mk_call("len", [L]), T.ZERO), T.ZERO, mx))
@@ -58,9 +56,9 @@ def _ts_max_candidates(q_start, r=None, region_guard=None):
             if how != "append" or not (elt[0] == "call" and T.call_name(elt).endswith(".q_ts_max.popleft")) or len(loops) != 1 or loops[0] not in r.loops:
                 continue
             lp = r.loops[loops[0]]
-            if not (lp.iter[0] == "call" and lp.iter[1] == "self.inputs.values"):
+            if not (lp.iter[0] == "call" and lp.iter[1] == "self.inputs.items"):
                 continue
-            el = ("elem", lp.iter, lp.uid)
+            el = T.mk_index(("elem", lp.iter, lp.uid), T.ONE)
             blocking = T.mk_attr(T.mk_attr(el, "connection"), "blocking")
             recv_ok = isinstance(elt[1], tuple) and any(x == el for x in T.walk(elt[1]))
             if not recv_ok or T.assume(g, blocking, True) != region_guard or T.assume(g, blocking, False) != T.FALSE:
